@@ -2,10 +2,11 @@
 
 Obligations: theorems of lean/OmplModel/Props/C17.lean (kernel-checked, audited).
 Correspondence (lock-step, bit-exact): the real PathSimplifier::collapseCloseVertices / ropeShortcutPath /
-reduceVertices / partialShortcutPath (the last two under SCRIPTED random draws substituted for the private rng_) and
-PathGeometric::subdivide / interpolate() / interpolate(count) (harness/pathops.cpp, compiled from the tree under test
-with ASan+UBSan) against the Lean model (drv_pathops), which gets the same path plus the checkMotion transcript
-recorded on the real code as its oracle.
+reduceVertices / partialShortcutPath (the last two under SCRIPTED random draws substituted for the private rng_),
+PathGeometric::checkAndRepair (scripted raw sampler) and subdivide / interpolate() / interpolate(count)
+(harness/pathops.cpp, compiled from the tree under test with ASan+UBSan) against the Lean model (drv_pathops), which gets
+the same path plus the checkMotion / isValid transcript recorded on the real code as its oracle.  The model follows the
+tree AFTER the fixes F9 / F55 / F56; the driver also prints the pre-fix variant so that a regression is named.
 Trace conformance (no model): smoothBSpline, perturbPath, findBetterGoal, simplify, simplifyMax, PathHybridization and
 the randomised runs of the routines above under the real RNG (seeded) and several objectives.
 Spec oracle (Python, on the implementation's outputs only): endpoints, three-way classification of every output motion
@@ -624,7 +625,7 @@ def run_scenario(ck, hbin, hchk, sc, ops, tag, seedtag):
                                    detail="checked indexing fails in the model of the current code: the routine indexes a vector out of range",
                                    script=hdr + [line], observed=[o], model=[m])
             if routine == "pshort":
-                # the driver prints the model of the current code, then the model of the code before fix f9a435dd6 (F55)
+                # the driver prints the model of the current code, then the model of the code before fix b725c3169 (F55)
                 mc, _, mo = m.partition(" | old ")
                 mc, mo = canon(mc), canon(mo)
                 if mc == "idx-error":
@@ -635,7 +636,7 @@ def run_scenario(ck, hbin, hchk, sc, ops, tag, seedtag):
                     issues += pending_fails.get(line, [])
                 elif mo == "idx-error" or impl_c == mo:
                     issues.append(dict(kind="regress", fid="F55", routine="pshort", clause="indices_in_range" if mo == "idx-error" else "finite" if " nan" in mo else "lockstep",
-                                       cls="snap test misses an exact hit (behaviour of the code before fix f9a435dd6)",
+                                       cls="snap test misses an exact hit (behaviour of the code before fix b725c3169)",
                                        detail="partialShortcutPath behaves like the code before fix F55 (snap-to-vertex test `<`): " +
                                               ("a sample at the end of the path reads dists[pos+1] / states[pos+1] out of range" if mo == "idx-error"
                                                else "a sample exactly on a vertex is not snapped" + (" (t = 0/0: NaN state in the path)" if " nan" in mo else "")),
@@ -952,7 +953,8 @@ def run(ck):
                "states with repeated and near-repeated states); non-trivial = the routine changed the path; distinct by "
                "(scenario, op index)")
     ck.trusted += ["harness/pathops.cpp compiles PathSimplifier.cpp and PathGeometric.cpp of the tree under test into its own translation unit "
-                   "(ASan/UBSan-instrumented), opens `private`, and substitutes a proxy for the token `rng_` (scripted draws for reduce/pshort)",
+                   "(ASan/UBSan-instrumented), opens `private`, substitutes a proxy for the token `rng_` (scripted draws for reduce/pshort) and installs a "
+                   "scripted raw state sampler for checkAndRepair",
                    "checkMotion, distance/interpolate of the space, validSegmentCount and every double rounding step are oracles/parameters of the model; "
                    "the driver instantiates distance/interpolate with the shared space models (C06/C07) and takes checkMotion answers and validSegmentCount from the recorded transcript",
                    "the Python oracle's geometry (collinearity within 1e-8, obstacle re-validation with boxes shrunk by the checking resolution)"]
@@ -1039,19 +1041,23 @@ MANIFEST = {
     "engine": "pathops",
     "category": "proof",
     "design_ref": "DESIGN.md 2.17",
-    "text": "Lean 4 theorems over an executable model of the deterministic path post-processing code (collapseCloseVertices, "
-            "ropeShortcutPath, reduceVertices as a function of its random index draws, the four splice cases of partialShortcutPath, "
-            "PathGeometric::subdivide / interpolate() / interpolate(count)): first/last state kept, only input or validated motions, "
-            "result a subsequence (vertex removal) or supersequence (densification) of the input, never longer under the triangle "
-            "inequality, exactly the requested number of states, checked indexing never fails (with the F9 witness for "
-            "ropeShortcutPath before fix 695c3e72c), simplify's return value. The model follows the tree after the fixes F9/F55/F56 and is tied to PathSimplifier.cpp / PathGeometric.cpp by bit-exact lock-step runs "
-            "(scripted random draws, recorded checkMotion transcript as oracle). smoothBSpline, perturbPath, findBetterGoal, simplify, "
-            "simplifyMax and PathHybridization are NOT modelled: they are covered by trace conformance only (seeded runs, recorded "
-            "checkMotion transcript, the property evaluated on the real outputs).",
-    "note": "Trusted: Lean kernel, the three standard axioms, the hand-written model outside the explored scripts, the harness "
-            "(which compiles the two source files under test into its own translation unit and proxies the private rng_), the Python "
-            "oracle's geometry. IEEE rounding is executed, not verified: never_longer is proved over an ordered group with the "
-            "triangle inequality as hypothesis. The randomised routines' choice logic is covered on explored transcripts only.",
-    "technique": "Lean 4 proof (shortcut-sequence refinement, induction over the loops, integer counting invariant) + lock-step "
-                 "differential correspondence + trace conformance",
+    "text": "Lean 4 theorems over executable models of the path post-processing code as it is after the fixes F9/F55/F56: "
+            "reduceVertices (as a function of its random index draws), collapseCloseVertices, ropeShortcutPath, the splice blocks of "
+            "partialShortcutPath / findBetterGoal / perturbPath, checkAndRepair with a scripted sampler, simplify's return value, "
+            "PathGeometric::subdivide / interpolate() / interpolate(count), and the hybridization graph with a shortest-walk "
+            "specification: first/last state kept (or last = sampled goal), only input or validated motions, only validated states from a "
+            "successful repair, subsequence / supersequence, never longer (triangle inequality; additive cuts), exactly the requested "
+            "number of states, checked indexing never fails, simplify true => check(), hybrid <= every recorded input. The pre-fix code "
+            "is kept as `...Old` definitions with witness theorems. Models of reduce / collapse / rope / pshort / checkAndRepair / "
+            "densification are tied to PathSimplifier.cpp / PathGeometric.cpp by bit-exact lock-step runs (scripted random draws and raw "
+            "samples, recorded checkMotion / isValid transcript as oracle). smoothBSpline, perturbPath, findBetterGoal, simplify, "
+            "simplifyMax and PathHybridization as whole routines are covered by trace conformance only (seeded runs, recorded checkMotion "
+            "transcript, the property evaluated on the real outputs); their splice / graph models are proved but not run against the code.",
+    "note": "Trusted: Lean kernel, the three standard axioms, the hand-written models outside the explored scripts, the harness "
+            "(which compiles the two source files under test into its own translation unit, proxies the private rng_ and installs a "
+            "scripted sampler), the Python oracle's geometry, boost's Dijkstra (assumed to return a shortest walk). IEEE rounding is "
+            "executed, not verified: never_longer is proved over an ordered monoid with the triangle inequality and additive cuts as "
+            "hypotheses. The randomised routines' choice logic is covered on explored transcripts only.",
+    "technique": "Lean 4 proof (shortcut-sequence refinement, induction over the loops, integer counting invariant, splice canonical "
+                 "forms, loop invariant of checkAndRepair, walk monotonicity) + lock-step differential correspondence + trace conformance",
 }
